@@ -1,4 +1,5 @@
 import AiutiVerif.Buffer.InvStep
+import AiutiVerif.Buffer.Quiet
 import AiutiVerif.Buffer.Props
 /-!
 # Buffer property theorems at run level (C03 conservation, C07 barrier)
@@ -141,6 +142,43 @@ theorem C08_serial_nonempty_prefix (s0 : St) (hf : Fresh s0) (ins : List In) (hn
     serial s.outs = some s.pc.isRunning ∧ ∀ t a, Out.start t a ∈ s.outs → a ≠ [] := by
   have h := foldl_applyIn_K ins s0 (K_fresh s0 hf) hn
   exact ⟨h.serialOk, h.startsOk⟩
+
+/-- **Quiet period.** For immediately available arguments (plain calls, synchronous iterables: every
+producer is immediate), no forced flush and a positive timeout `T`: whenever the wrapped function is
+called, at instant `t`, no submission lies strictly inside `(t - T, t)` — every submission made so
+far is at least `T` old (a submission at exactly `t` is a tie, which the property does not judge),
+and every later one comes at `t` or after.  `subTimes` are the instants at which the submissions were
+applied.  Function durations shorter and longer than `T`, failing calls and their retries included. -/
+theorem C08_quiet_period (s0 : St) (hf : Fresh s0) (ht : 0 < s0.T) (hl : s0.lastSub = 0) (hs : s0.subTimes = [])
+    (ins : List In) (hin : ∀ i ∈ ins, QuietIn i) :
+    let s := runProgram s0 ins
+    ∀ t a, Out.start t a ∈ s.outs → ∀ b ∈ s.subTimes, b + s0.T ≤ t ∨ t ≤ b := by
+  intro s t a hst b hb
+  obtain ⟨hk, hq, _⟩ := KQI_foldl ins s0 (K_fresh s0 hf) (Q_fresh s0 hf ht hl hs) (InputOk_fresh s0 hf) hin
+  have hq2 : Q s := (KQ_advance fuelDefault horizon false _ hk hq).2
+  have hT : s.T = s0.T := runProgram_T s0 ins
+  have := (hq2.startsQuiet t a hst).2 b hb
+  rw [hT] at this
+  exact this
+
+theorem C08_quiet_period_prefix (s0 : St) (hf : Fresh s0) (ht : 0 < s0.T) (hl : s0.lastSub = 0) (hs : s0.subTimes = [])
+    (ins : List In) (hin : ∀ i ∈ ins, QuietIn i) :
+    let s := ins.foldl applyIn s0
+    ∀ t a, Out.start t a ∈ s.outs → ∀ b ∈ s.subTimes, b + s0.T ≤ t ∨ t ≤ b := by
+  intro s t a hst b hb
+  obtain ⟨_, hq, _⟩ := KQI_foldl ins s0 (K_fresh s0 hf) (Q_fresh s0 hf ht hl hs) (InputOk_fresh s0 hf) hin
+  have hT : s.T = s0.T := foldl_applyIn_T ins s0
+  have := (hq.startsQuiet t a hst).2 b hb
+  rw [hT] at this
+  exact this
+
+/-- a burst 0, 500, 900 with `T = 1024`: one call, at 900 + 1024 -/
+example : (runProgram { T := 1024, outcomes := [] }
+    [.submit 0 [(0, some 0)], .submit 500 [(0, some 1)], .submit 900 [(0, some 2)]]).outs =
+    [.start 1924 [0, 1, 2], .fin 1924 true] := by decide +kernel
+example : (runProgram { T := 1024, outcomes := [] }
+    [.submit 0 [(0, some 0)], .submit 500 [(0, some 1)], .submit 900 [(0, some 2)]]).subTimes = [0, 500, 900] := by
+  decide +kernel
 
 /-- `serial` really rejects overlapping calls (so the theorem above is not vacuous). -/
 example : serial [.start 0 [1], .start 1 [2]] = none := by decide
